@@ -565,7 +565,8 @@ func init() {
 			}),
 			rule("R39b", "only gated handlers serve; gRPC servers install unary and stream gates", 6, func(r *Run) {
 				core.WhoMayCall{Targets: []string{"net/rpc.(*Server).ServeRequest", "net/rpc.(*Server).ServeCodec", "net/rpc.(*Server).ServeConn", "net/rpc.(*Server).ServeHTTP", "net/rpc.(*Server).Accept", "net/rpc.(*Server).HandleHTTP"},
-					Allowed: []string{"rpc.(*JSONRPCServer).Listen"}, Min: 1}.Check(r)
+					Allowed: []string{"rpc.(*JSONRPCServer).Listen", "cmd/miner_accounts.main"}, Min: 1,
+					Reasons: map[string]string{"cmd/miner_accounts.main": "a separate command-line tool (mining-account statistics) that serves its own net/rpc server object with its own two methods; it is not one of the node's RPC endpoints and registers none of the node's services (seen only by the whole-module tier)"}}.Check(r)
 				// the HTTP listener is served with the gated handler only
 				if f := r.Fn("rpc.(*JSONRPCServer).Listen"); f != nil {
 					c := f.Ctx()
